@@ -75,8 +75,9 @@ OTHER = [("rmnot", r"(?<![A-Za-z0-9_\]\)])!(?=[A-Za-z_(])", ""), ("rmneg", r"(?<
 
 def sites_of(path, src):
     mask = code_mask(src)
-    cut = mask.find("#[cfg(test)]")
-    if cut >= 0 and "mod " in mask[cut:cut + 80]:
+    m_ = re.search(r"#\[cfg\([^\]]*\btest\b[^\]]*\)\]\s*(pub\s+)?mod\s", mask)
+    if m_:
+        cut = m_.start()
         mask = mask[:cut] + re.sub(r"[^\n]", " ", mask[cut:])
     # drop attribute lines
     mask = "\n".join((" " * len(l)) if l.lstrip().startswith("#[") or l.lstrip().startswith("#![") or l.lstrip().startswith("use ") else l for l in mask.split("\n"))
